@@ -83,6 +83,19 @@ def runC12 (fields : List String) (obs : String) : String × String × String :=
           | .ok y => operandText k2 (.mat (fill y r c)))
       | none => ("bad-case", "bad-case", "-")
     | _, _, _, _ => ("bad-case", "bad-case", "-")
+  | ["toset2", k1n, k2n, ot] =>
+    -- a set of another element kind: the elements converted one by one, then made distinct; the pinned
+    -- commit refuses some kind pairs here (which ones is not modelled): a refusal is accepted
+    (match kindOfName k1n, kindOfName k2n with
+     | some k1, some k2 =>
+       (match parseOperand k1 ot with
+        | some (.mat m) =>
+          if obs == "err" then ("err", "ok", "-") else
+          (match convertMat hwConv k1 k2 m with
+           | .ok y => eqv (setText k2 (toSetList y))
+           | .error _ => eqv "err")
+        | _ => ("bad-case", "bad-case", "-"))
+     | _, _ => ("bad-case", "bad-case", "-"))
   | ["toset", kn, ot] =>
     match kindOfName kn with
     | some k =>
